@@ -846,3 +846,88 @@ func TestC18Blocks(t *testing.T) {
 		return fmt.Sprintf("block pass: %d like/ilike filters on string and enum columns of %v rows", runs, sizes)
 	}, "block-sizes")
 }
+
+// TestC14Blocks: the writers on frames of 1023 … 20003 rows in three arrangements (code that renders in blocks or side by
+// side), and on an int column holding every power of ten and of two with its neighbours: the JSON text denotes exactly the
+// frame, row by row, and reads back as it; the CSV text has one record per row.
+func TestC14Blocks(t *testing.T) {
+	sizes := []int{1023, 4097, 8191, 8192, 8193, 8195, 16386, 20003}
+	if tier() == "thorough" {
+		sizes = append(sizes, 32769, 65537, 65539, 131075)
+	}
+	runs := 0
+	for _, n := range sizes {
+		_, frames, tabs := blockFrames(n, blockSeed())
+		for fi, qf := range frames {
+			if msg := checkJSON(qf, finiteOnly(tabs[fi])); msg != "" {
+				t.Fatalf("ToJSON of %d rows (arrangement %d): %s", n, fi, clipS(msg))
+			}
+			// (the round trip on the columns JSON can always tell: no NaN, no null)
+			var buf bytes.Buffer
+			if err := qf.Select("id", "i1", "b1").ToJSON(&buf); err != nil {
+				t.Fatal(err)
+			}
+			back := qframe.ReadJSON(bytes.NewReader(buf.Bytes()))
+			if back.Err != nil || back.Len() != n {
+				t.Fatalf("ReadJSON(ToJSON) of %d rows (arrangement %d): %d rows, Err %v", n, fi, back.Len(), back.Err)
+			}
+			ids, err := back.IntView("id")
+			if err != nil {
+				// (whole floats: JSON numbers come back as float)
+				fv, ferr := back.FloatView("id")
+				if ferr != nil {
+					t.Fatalf("id column after the round trip: %v %v", err, ferr)
+				}
+				want := tabs[fi].MustCol("id").I
+				for r := 0; r < n; r++ {
+					if int(fv.ItemAt(r)) != want[r] {
+						t.Fatalf("ReadJSON(ToJSON) of %d rows (arrangement %d): row %d has id %v, want %d", n, fi, r, fv.ItemAt(r), want[r])
+					}
+				}
+			} else {
+				want := tabs[fi].MustCol("id").I
+				for r := 0; r < n; r++ {
+					if ids.ItemAt(r) != want[r] {
+						t.Fatalf("ReadJSON(ToJSON) of %d rows (arrangement %d): row %d has id %d, want %d", n, fi, r, ids.ItemAt(r), want[r])
+					}
+				}
+			}
+			runs++
+		}
+	}
+	// every power of ten and of two with its neighbours, both signs
+	var ints []int
+	for p := 1; p > 0 && p <= math.MaxInt64/10; p *= 10 {
+		ints = append(ints, p-1, p, p+1, -p+1, -p, -p-1)
+	}
+	for k := 0; k < 63; k++ {
+		p := 1 << uint(k)
+		ints = append(ints, p-1, p, p+1, -p+1, -p, -p-1)
+	}
+	ints = append(ints, math.MaxInt64, math.MinInt64, math.MaxInt64-1, math.MinInt64+1)
+	itab := hx.Table{Cols: []hx.Col{{Name: "i", Kind: hx.KInt, I: ints}}}
+	if msg := checkJSON(hx.Build(itab), itab); msg != "" {
+		t.Fatalf("ToJSON of the powers of ten and two with their neighbours: %s", clipS(msg))
+	}
+	if msg := checkCSV(hx.Build(itab), itab); msg != "" {
+		t.Fatalf("ToCSV of the powers of ten and two with their neighbours: %s", clipS(msg))
+	}
+	evC14.CaseHash(true, 0x424c4f43^blockSeed(), func() string {
+		return fmt.Sprintf("block pass: ToJSON/ReadJSON on %v rows, three arrangements (%d runs); %d ints at the powers of ten and two", sizes, runs, len(ints))
+	}, "block-sizes")
+}
+
+// finiteOnly replaces the infinities of float columns by NaN-free finite values? No: JSON cannot tell ±Inf, the denotation
+// check leaves them out - the block tables hold none; the function only documents the precondition.
+func finiteOnly(t hx.Table) hx.Table {
+	for _, c := range t.Cols {
+		if c.Kind == hx.KFloat {
+			for _, f := range c.F {
+				if math.IsInf(f, 0) {
+					panic("block tables must not hold infinities")
+				}
+			}
+		}
+	}
+	return t
+}
